@@ -336,8 +336,16 @@ fn sweep_parquet_dict(ctx: &Ctx) -> R {
         })
         .collect();
     let schema = Arc::new(Schema::new(fields));
-    let rows = 1 + ctx.below(24, "c08.dict.rows");
+    let rows = 1 + ctx.below(8, "c08.dict.rows");
     let (lb, rb) = gen::gen_batch(ctx, &schema, rows, &p);
+    // rows repeated 1-17 times: runs of equal indices are RLE runs (whose value byte is not masked to the bit
+    // width), shorter stretches are bit-packed groups
+    let reps: Vec<usize> = (0..rows).map(|_| *ctx.pick(&[1usize, 8, 2, 9, 17], "c08.dict.rep")).collect();
+    let idx: Vec<u32> = reps.iter().enumerate().flat_map(|(i, r)| std::iter::repeat(i as u32).take(*r)).collect();
+    let ia = arrow_array::UInt32Array::from(idx.clone());
+    let cols: Vec<arrow_array::ArrayRef> = rb.columns().iter().map(|c| arrow_select::take::take(c.as_ref(), &ia, None).expect("take")).collect();
+    let rb = arrow_array::RecordBatch::try_new(schema.clone(), cols).expect("batch");
+    let lb = gen::LBatch { cols: lb.cols.iter().map(|c| idx.iter().map(|i| c[*i as usize].clone()).collect()).collect(), rows: idx.len() };
     let wl = checks::Workload { schema, batches: vec![rb], logical: vec![lb] };
     let mut cfg = PqCfg::gen(ctx);
     cfg.bloom = false;
